@@ -363,6 +363,14 @@ def edited_insert(ctx, case):
                 hits3 = [f.id for f in db.region("chr1:%d-%d" % (ns, ne))]
                 wide = "chr1:%d-%d" % (max(1, ns // 10 * 9 if ns > 20 else 1), min(S.LIMIT - 1, ne + 1500))
                 hits4 = [f.id for f in db.all_features(limit=wide)] + ["|"] + [f.id for f in db.region(wide)]
+                # ... and without a seqid (start and end alone), overlap and completely-within
+                hits5 = [f.id for f in db.region(start=ns, end=ne)] + ["|"] + \
+                        [f.id for f in db.region(start=max(1, ns - 1), end=min(S.LIMIT - 1, ne + 1), completely_within=True)] + ["|"] + \
+                        [f.id for f in db.region(start=max(1, ns - 70000), end=min(S.LIMIT - 1, ne + 70000))]
+                if hits5.count(fid) != 3:
+                    ctx.violation(case, {"why": "a stored feature is not found by a query around its position that names no seqid",
+                                         "feature": fid, "coords": [ns, ne], "region(start=, end=) x3": hits5})
+                    return
                 ctx.mon("query forms (tuple, string, wider string) checked against a stored bin")
                 if fid not in hits3 or hits4.count(fid) != 2:
                     ctx.violation(case, {"why": "a stored feature is not found by a query given in string form around its position",
